@@ -11,6 +11,21 @@ import re
 
 
 PROPS = {
+    "C09": {
+        "coq_targets": ["theories/Lex/LayoutProofs.vo"],
+        "harness": ["c09"],
+        "disagreement_is_violation": True,
+        "axioms": [],
+        "trusted_base": COMMON_TB + [
+            "Lex/Layout.v: canon as the definition of 'the same program in another layout' (a three-mode machine: code, string literal, comment); it is a specification object, not a model of the parser's tokenizer",
+            "harness/src/c09.rs: the text transformations (their own three-mode machine), the comparison of parse trees by Debug text with positions removed and letters folded, verdict classes, run behaviour",
+            "NOT modelled: the tokenizer, the grammar, the checker - that they depend on the layout class only is observed on the generated / rejected / repository programs",
+        ],
+        "assumptions": [
+            "unquoted DATA items are data (case sensitive), so programs with DATA are not re-cased; trailing blanks are not added after a comment (they would become comment text)",
+            "comments are nodes of the parse tree, so trees are not compared for transformations that add comments",
+        ],
+    },
     "C13": {
         "coq_targets": ["theories/Names/ResolveProofs.vo"],
         "harness": ["c13"],
